@@ -248,6 +248,7 @@ def run(ctx):
         cases.append(dict(s, tol=float(10 ** rs.uniform(-12, -1)), max_iters=int(rs.integers(0, 2 * s["n"] + 1)), stream="x0_region"))
     for c in cases:
         c["div_small"] = div_small
+        c["abs_guard"] = abs_guard
     obs = [L.run_impl(c) for c in cases]
     for c, o in zip(cases, obs):        # the state one step before the exit, for the "did not stop too late" clause
         if c["stream"] == "stopping" and o.get("ok") and o["steps"] >= 1:
@@ -263,7 +264,7 @@ def run(ctx):
     longs = [j for j, i in enumerate(stable) if cases[i]["stream"] == "long_iterates"]
     failing, near = [], []
     for name, sel, shard in (("c12", short, 120), ("c12L", longs, 4)):      # long runs carry 100..270-dimensional matrices: few cases per file
-        f_, n_, err = L.eval_in_coq(name, [items[j] for j in sel], flag, shard=shard, div_small=div_small)
+        f_, n_, err = L.eval_in_coq(name, [items[j] for j in sel], flag, shard=shard, div_small=div_small, abs_guard=abs_guard)
         if err:
             mism.append(dict(oracle_fail=False, harness_error=err))
         else:
@@ -305,7 +306,7 @@ def run(ctx):
         B = (rs.normal(size=(n, nc)) + (1j * rs.normal(size=(n, nc)) if cplx else 0)) * 10.0 ** (rs.uniform(-6, 6, size=(1, nc)) + rs.uniform(-8, 2))
         c = dict(A=A, Pop=Pop, Pd=Pd, B=B, X0=None, cplx=cplx, sys_id=sid, kappa=kappa, kind=kind, pk=pk, x0kind="none",
                  spread="12 orders, absolute 1e-14..1e8", n=n, nc=nc, vector_api=bool(nc == 1), tol=float(10 ** rs.uniform(-12, -1)),
-                 max_iters=int(rs.integers(0, 2 * n + 1)), stream="large", div_small=div_small)
+                 max_iters=int(rs.integers(0, 2 * n + 1)), stream="large", div_small=div_small, abs_guard=abs_guard)
         o = L.run_impl(c)
         st = L.stability(c, x0_unscaled=flag) if n <= 80 else dict(same_steps=False, dev_x=np.inf, sens_A=np.inf)
         c["check_opt"] = bool(st["same_steps"] and st["sens_A"] <= 1e-9)
